@@ -131,7 +131,21 @@ func (f *FExpr) String() string {
 	case "log":
 		return "log(" + f.A.String() + ")"
 	}
-	return "(" + f.A.String() + f.Op + f.B.String() + ")"
+	if f == nil {
+		return "<nil>"
+	}
+	switch f.Op {
+	case "+", "-", "*", "/":
+		return "(" + f.A.String() + f.Op + f.B.String() + ")"
+	}
+	// an uninterpreted function (floor, round, min, ...)
+	if f.B != nil {
+		return f.Op + "(" + f.A.String() + ", " + f.B.String() + ")"
+	}
+	if f.A != nil {
+		return f.Op + "(" + f.A.String() + ")"
+	}
+	return f.Op + "()"
 }
 
 // ---------------------------------------------------------------- strings
